@@ -337,6 +337,10 @@ def project(cfg, res):
             # the documented clamp: a NEGATIVE balance result is replaced by minComposition (nothing else may be overwritten)
             raw = (float(x0[el]) - float(sumfc[el])) / (1 - sumfv) if sumfv < 1 else float("nan")
             clampd = bool(comp[el] == m.constraints.minComposition and raw < 0)
+            # total precipitate fraction saturated at 1 (the run has blown up numerically): the code documents that the matrix
+            # composition is then left as it is; outside the property's domain (DESIGN 3/C02), still subject to the C03 clauses
+            if sumfv >= 1.0 - 1e-12:
+                clampd = True
             lhs = float(x0[el])
             rhs = (1 - sumfv) * float(comp[el]) + float(sumfc[el])
             mb.append({"cmp": cmp3(lhs, rhs, rtol=RTOL_MB, atol=1e-15), "clamped": clampd})
